@@ -989,6 +989,20 @@ class NetworkGraph(AbstractBaseIR):
         # step 3: process multiple inputs to same variable
         if multiple_inputs:
 
+            # entries of the target variable that none of the sources reaches keep the declared default (as they do when
+            # there is a single source); entries that are driven, or fed by operators of the node, start from zero
+            if tsize > 1 and not self[tnode][top]['inputs'].get(tvar, {}).get('sources'):
+                driven = set()
+                for tidx_tmp in target_indices:
+                    driven.update(range(tsize) if not tidx_tmp else [int(j) for j in tidx_tmp])
+                default = np.asarray(tval['value'], dtype=float).reshape(-1)
+                if default.shape[0] == tsize:
+                    rest = np.asarray([0.0 if j in driven else default[j] for j in range(tsize)])
+                    if np.any(rest != 0.0):
+                        d_str = f'{tvar}_undriven'
+                        args[d_str] = {'vtype': 'constant', 'dtype': 'float', 'value': rest, 'shape': (tsize,)}
+                        in_vars.append(d_str)
+
             # finalize edge equations
             eq = f"{tvar} = {'+'.join(in_vars)}"
             eqs.append(eq)
